@@ -19,7 +19,7 @@ RULE = ("monitor at exit of the real MCSSearch.find (inside real pipeline runs o
 ASSUMPTIONS = ["containment is RDKit HasSubstructMatch of the reported SMARTS in the reported molecule",
                "tie-breaks between equally large conditions are not asserted (the property does not state them)"]
 TIMEOUT = {"quick": 1200, "thorough": 3400}
-SHAPES = [[], [""], ["C"], ["CC"], ["CCC"], ["C", "CC"], ["", "CC"]]
+SHAPES = [[], [""], ["C"], ["CC"], ["CCC"], ["C", "CC"], ["", "CC"], ["[2H]C([2H])[2H]"]]
 NOMATCH = ["[Na+].[Cl-]>>O", "CCl>>N", "[K+].[Br-]>>CC", "CS>>[Na+]", "N#N>>CC(C)C", "[Li+].[OH-]>>c1ccccc1"]
 
 
@@ -53,6 +53,9 @@ def plan(tier, seed):
                       "cfg": {"batch_size": None, "threshold": 0, "n_jobs": 1}})
         k += 1
     shards = rowlib.spread(cases, 15 if q else 44)
+    # inner searches of one reaction forced to 'canceled' (what RDKit's 1 s budget does under load)
+    fc = [c for c in cases if 2 <= len(c["inputs"]) <= 8][: (3 if q else 16)]
+    shards += [{"cancel_cases": [c]} for c in fc]
     if q:
         shards.append({"tables": {"rows": 1, "part": 0, "parts": 1}})
         shards += [{"tables": {"rows": 2, "part": p, "parts": 3, "sample": 400}} for p in range(3)]
@@ -130,7 +133,27 @@ def check_find(reactions_after, cond_results, largest, res, inputs):
                 res.viol("retained_entry_is_none_of_the_condition_results", **w)
 
 
-def pipeline_case(case, res):
+def cancel_case(case, res):
+    """the same monitor while the first inner FindMCS call of each (reaction, condition) job - or all of
+    them - is reported as canceled"""
+    from vmon.faults import Injector
+    inj = Injector(budget=2.0)
+    inj.install()
+    try:
+        inj.set_plan({})
+        pipeline_case(case, res, count=False)
+        jobs = sorted({"%s/%d" % (e[1], e[2]) for e in inj.log if e[0] == "fit"})
+        for mode in ([0], [1], "all"):
+            for rid in sorted({j.split("/")[0] for j in jobs}):
+                mine = [j for j in jobs if j.startswith(rid + "/")]
+                inj.set_plan({"cancel": {j: mode for j in mine}})
+                pipeline_case(case, res)
+                res.count("forced_cancel_runs")
+    finally:
+        inj.uninstall()
+
+
+def pipeline_case(case, res, count=True):
     import synrbl.mcs_search as MS
     captured = {}
     orig_ens = MS.ensemble_mcs
@@ -239,6 +262,10 @@ def work(shard, res, tier, seed):
     if "tables" in shard:
         tables(shard["tables"], seed, res)
         return
+    if "cancel_cases" in shard:
+        for case in shard["cancel_cases"]:
+            cancel_case(case, res)
+        return
     for case in shard["cases"]:
         pipeline_case(case, res)
     res.sample({"batch": shard["cases"][0]["inputs"][:2]})
@@ -252,5 +279,5 @@ def conclude_args(res, tier, seed):
         ex += "; 3 x 2 rows (%d tables) enumerated completely: %s" % (
             n2, res.counters.get("tables_exhaustive_rows2", 0) == n2)
     return {"need": {"find_results_checked": 100, "containment_evaluated": 100, "maximality_evaluated": 100,
-                     "tables_evaluated": 300, "tables_exhaustive_rows1": n1}, "min_cases": 100,
+                     "tables_evaluated": 300, "tables_exhaustive_rows1": n1, "forced_cancel_runs": 5}, "min_cases": 100,
             "extra": {"exhaustive_subspace": ex}}
